@@ -359,7 +359,7 @@ def build_patterned_weight(ps, kind, dtype, info, name, leaf=False):
 
 
 def build(spec, kind='real', dtype=None, weight_hook=None, explicit_ids=False, range_domains=False,
-          node_prefix='v', edge_prefix='e', leaf_patterns=False, term_edge_prefix=None, start_last=False, ghosts=None, ext_twice=False):
+          node_prefix='v', edge_prefix='e', leaf_patterns=False, term_edge_prefix=None, start_last=False, ghosts=None, ext_twice=False, empty_id=False):
     """Build an FGG from a spec through the public API.
     weight_hook(name, tensor) -> tensor|PatternedTensor lets callers wrap leaves / patterns.
     Returns (fgg, info) where info has the Node/Edge objects per rule for later inspection."""
@@ -383,7 +383,8 @@ def build(spec, kind='real', dtype=None, weight_hook=None, explicit_ids=False, r
         def _explicit(i):
             return explicit_ids is True or (explicit_ids == 'mixed' and (ri + i) % 2 == 0)
         for j, nl in enumerate(r['nodes']):
-            v = fggs.Node(nls[nl], id=f'{node_prefix}{ri}_{j}' if _explicit(j) else None)
+            # empty_id: the first explicitly named node of every rule is named '' (a legal, falsy id)
+            v = fggs.Node(nls[nl], id=('' if (empty_id and j == 0) else f'{node_prefix}{ri}_{j}') if _explicit(j) else None)
             g.add_node(v); nodes.append(v)
         edges = []
         for k, e in enumerate(r['edges']):
